@@ -14,6 +14,7 @@ LEVEL_TEXT = (
     'oracle: on each connection at most one NOTIFICATION, it is the last message written, its (code, subcode) is the class table '
     'entry written from RFC 4271 s6 / RFC 6608 / RFC 7313, and a received NOTIFICATION is never answered.'
     ' A ROUTE-REFRESH with an unknown subtype must be ignored; a slowly split KEEPALIVE may precede the message under test.'
+    ' Headers wrong in Marker and length at once, `local-as auto` sessions, `teardown` with a code that does not fit its octet (refused, the session goes on).'
 )
 LEVEL_NOTE = 'trusts: the class table below (cells where the RFCs leave a choice accept every defensible subcode), simulated TCP, reference framing of what exabgp wrote'
 DESIGN_REF = 'DESIGN.md section 5, C10'
